@@ -28,7 +28,7 @@ def main():
              setup_cmd="./setup.sh",
              hooks=dict(guard="LUG_VERIF", enable="checks compile cpp/*.cpp against /repo/include with -DLUG_VERIF -fno-access-control",
                         baseline_off_cmd="cmake --build /repo/_build && ctest --test-dir /repo/_build -j8 --timeout 900",
-                        source_commits=[], add_only=True),
+                        source_commits=["54e8d2edd0b63841acfa91740e742f05c1dc3d76"], add_only=True),
              engines=[dict(name="coq-model", path="/verif/coq", serves_properties=sorted(claimed),
                            kind_free_text="Coq 8.16.1 development (model, spec, theorems) + translator regenerating tables/constants from the headers + extraction to OCaml + C++ drivers for the correspondence check")],
              checks=checks,
